@@ -87,6 +87,41 @@ func checkC04(c *Ctx) error {
 	if reach == 0 {
 		return fmt.Errorf("vacuity guard: type spelling harness never reached its end")
 	}
+	// (B2) imports of a spelled type: qualifiers used = ReferencedImports recorded
+	if fn2 := k.Pkg.Func("verifHarnessTypeImports"); fn2 == nil {
+		return fmt.Errorf("harness missing: verifHarnessTypeImports")
+	} else {
+		reach2 := 0
+		res2 := k.E.Run(fn2, func(ps *symx.PathState) []any { return []any{symx.IntArg(depth)} }, nil)
+		for _, r := range res2 {
+			paths++
+			if !strings.HasPrefix(r.Outcome, "ok") && !strings.HasPrefix(r.Outcome, "stopped") {
+				c.Inconclusive("type imports harness: path outcome " + r.Outcome)
+				continue
+			}
+			var typ string
+			for _, ev := range r.Events {
+				if le, ok := ev.(symx.LogEvent); ok && le.Tag == "type" {
+					typ = fmt.Sprint(le.Val)
+				}
+			}
+			for _, rc := range r.Reached {
+				if rc == "end" {
+					reach2++
+				}
+			}
+			for _, a := range r.Asserts {
+				oblig++
+				if a.Verdict == "violated" {
+					report(map[string]string{"kind": a.ID, "shape": typeShape(typ, "")}, map[string]any{"type": typ}, "C04-imports-"+corpus.Sanitize(typeShape(typ, "")))
+				}
+			}
+		}
+		c.Coverage["type_import_paths"] = len(res2)
+		if reach2 == 0 {
+			return fmt.Errorf("vacuity guard: type imports harness never reached its end")
+		}
+	}
 	// (C) gate: every generated corpus package type-checks; hygiene of generated identifiers
 	progs := append(corpus.F2(c.Thorough()), corpus.FN()...)
 	progs = append(progs, corpus.FH()...)
